@@ -1067,6 +1067,17 @@ class C19(Check):
             self.monitor("dispatch runs (16 combinations x spellings of the flags and of the file name, numpy stand-in)", 100)
         for f in (found2 or [])[:3]:
             self.violate("python-dispatch-run", "run(%s): %s" % (", ".join("%s=%s" % (k, v) for k, v in f["call"].items() if k != "adjacency_file"), f["what"]), f)
+        # ... and the statements after the dispatch: how u, v, the affinity and the report are handed back
+        try:
+            found3 = pyxsim.search_epilogue(open(os.path.join(C.REPO, "python", "package", "multitensor.pyx")).read())
+        except Exception:
+            found3 = None
+        self.cov["epilogue_simulated"] = found3 is not None
+        if found3 is not None:
+            self.cov["evaluations"] += 75
+            self.monitor("epilogue runs (3 shapes x spellings of the two flags, numpy stand-in)", 75)
+        for f in (found3 or [])[:3]:
+            self.violate("python-epilogue", "after a run with %s: %s" % (f["case"], f["what"]), f)
         for f in (found or [])[:3]:
             self.violate("python-prologue", "run(%s): %s" % (", ".join("%s=%r" % (k, v) for k, v in f["call"].items() if k not in ("adjacency_file", "init_affinity_file")), f["what"]), f)
         self.cli_agreement(t)
